@@ -295,6 +295,13 @@ Proof.
   - rewrite H_self' in Hj'. injection Hj' as <-. cbn in Hi. contradiction.
   - rewrite (H_old _ _ Hj Hne) in Hj'. injection Hj' as <-. eapply HA; eauto.
 Qed.
+Lemma charsleaf_old j nj' : CharsLeaf T w -> content_mode T (n_type n) <> Val MCharacters -> old j -> w_nodes w' j = Some nj' ->
+  content_mode T (n_type nj') = Val MCharacters -> elem_ids (n_content nj') = [].
+Proof.
+  intros HA Hm (nj & Hj) Hj' Hc. destruct (N.eq_dec j self) as [->|Hne].
+  - rewrite H_self' in Hj'. injection Hj' as <-. cbn in Hc. contradiction.
+  - rewrite (H_old _ _ Hj Hne) in Hj'. injection Hj' as <-. eapply HA; eauto.
+Qed.
 End Side.
 
 End Attach.
